@@ -222,7 +222,7 @@ def run(ctx):
     seeds.append(bundle('b1', b'https://example.com/v', b'https://example.com/m', None, [e for e, c in grp]))
     k = w.keys[0]
     seeds.append(bundle('b2', b'https://example.com/', None, f'{k["cert"]}:{hexs(b"o")}:nil/0:{hexs(b"sig")}:{hexs(b"signed")}', [exch(b'https://example.com/', 200, [], b'x')]))
-    res = ctx.go([f'bundle.write {b}' for b in seeds])
+    res, _ = ctx.both([f'bundle.write {b}' for b in seeds])            # compared: seeds are the model writer's bytes too
     files = [unhex(r.split(' ')[1]) for r in res if r and r.startswith('ok ')]
     if len(files) < len(seeds):
         ctx.infra.append(f'{len(seeds) - len(files)} seed bundles could not be written')
@@ -233,13 +233,26 @@ def run(ctx):
         muts += sections_variants(f)
         muts += index_mutants(f)
         muts += c10.retabled(f)            # declared section lengths whose sum wraps / single huge entries (table re-measured)
+    # response header maps written by hand: duplicated names (either value empty, equal, different), names that collide only
+    # after canonicalisation, pseudo headers duplicated / missing / misplaced, unsorted keys, wrong declared count
+    ST = (b':status', b'200')
+    crafted = []
+    for pairs, count in [([ST, (b'x-note', b''), (b'x-note', b'injected')], None), ([ST, (b'x-note', b'first'), (b'x-note', b'')], None), ([ST, (b'x-note', b''), (b'x-note', b'')], None),
+                         ([ST, (b'x-note', b'a'), (b'x-note', b'a')], None), ([ST, (b'content-type', b''), (b'content-type', b'text/html')], None),
+                         ([(b'x-a', b''), ST, (b'x-a', b'v')], None), ([ST, ST], None), ([ST, (b':status', b'404')], None), ([(b'x-a', b'1')], None), ([ST, (b'X-A', b'1')], None),
+                         ([ST, (b'x-b', b'2'), (b'x-a', b'1')], None), ([ST, (b'x-a', b'1')], 3), ([ST, (b'x-a', b'1'), (b'x-b', b'2')], 2), ([ST, (b':method', b'GET')], None),
+                         ([(b':status', b'20')], None), ([(b':status', b'2000')], None), ([(b':status', b'2x0')], None), ([ST, (b'x-a', b'caf\xc3\xa9')], None), ([ST, (b'', b'v')], None)]:
+        r = craft_response(pairs, b'body', count)
+        crafted.append(craft_b2([(b'https://example.com/', r)]))
+        crafted.append(craft_b2([(b'https://example.com/0', craft_response([ST], b'ok')), (b'https://example.com/1', r)], primary=b'https://example.com/0'))
+    muts += crafted
     # F5/F6/F7 witnesses built by hand
     seen, uniq = set(), []
     for mfile in muts:
         if mfile not in seen:
             seen.add(mfile); uniq.append(mfile)
     if not thorough and len(uniq) > 20000:
-        keep = set()
+        keep = set(crafted)
         for f in files:
             keep.update(index_mutants(f)); keep.update(c10.retabled(f)); keep.update(sections_variants(f)); keep.add(f)
         rest = [u for u in uniq if u not in keep]
